@@ -352,9 +352,9 @@ class SystemsWorld:
                      "covered several times per batch) asked in four forms between default_system switches, compared with an "
                      "independent reader of default_en.txt (sim/defs_reader.py: own evaluator, own rule inversion), plus all "
                      "bundled group and system memberships. "
-                     "distinct_nontrivial = distinct (step kind, outcome, default system set?, #edits so far (cap 3)) "
+                     "distinct_nontrivial = distinct (step kind, question form or number of arguments, outcome, default system set?, #edits so far (cap 3), more than three groups?, more than one system?) "
                      "with at least one earlier state change."),
-            "trivial": lambda t: t.endswith("|0"),
+            "trivial": lambda t: "|0|" in t and t.count("|") >= 6 and t.split("|")[4] == "0",
             "real": ["pint (group, system, plain, context facets) from the working tree of /repo", "flexparser"],
             "stubs": ["base-unit and root-unit memo tables wrapped in FlakyDict (forced misses)"],
             "assumptions": ["sampling, not enumeration",
@@ -510,7 +510,8 @@ class _Run:
         core.install_flaky(self.ureg, self.plan, self.col)
         k = s["k"]
         out = getattr(self, "do_" + k)(s)
-        self.col.trans(k, out, self.system_now() is not None, min(self.nedits, 3))
+        self.col.trans(k, s.get("form") or len(s.get("names", ())) or "", out, self.system_now() is not None, min(self.nedits, 3),
+                       len(self.model.groups) > 3, len(self.model.systems) > 1)
         self.log.ev(s["id"], k, out)
         self.plan.at_step(f"inv{s['id']}")
         self.check_members(k)
